@@ -136,7 +136,11 @@ pub struct DictBuilder<D> {
 impl DictBuilder<NoDic> {
     /// Creates a new builder for system dictionary
     pub fn new_system() -> Self {
-        Self::new_empty()
+        let mut bldr = Self::new_empty();
+        // there is no connection matrix until read_conn() is called:
+        // no connection id is valid for a system dictionary yet
+        bldr.lexicon.set_max_conn_sizes(0, 0);
+        bldr
     }
 }
 
